@@ -192,16 +192,20 @@ harnesses! {
     e2n_value_compare [native 0] => e2n::value_compare;
     e2n_c11_byron_attributes [native 0] => e2n::c11_byron_attributes;
     e2n_value_arith [native 0] => e2n::value_arith;
+    e2n_c14_mint_builder_range [native 0] => e2n::c14_mint_builder_range;
     e2n_c18_cert_signers [native 0] => e2n::c18_cert_signers;
     e2n_builder_battery [native 0] => battery::builder_battery;
     e2n_c09_battery [native 0] => battery::c09_battery;
+    e2n_c09_aux_battery [native 0] => battery::c09_aux_battery;
     e2n_c10_pointers [native 0] => battery::c10_pointers;
     e2n_c01_struct_roundtrip [native 0] => battery::c01_battery;
     e2n_c04_fixed_tx [native 0] => battery::c04_fixed_tx;
     e2n_c13_send_all [native 0] => battery::c13_send_all;
+    e2n_c13_spend_all [native 0] => battery::c13_spend_all;
     e2n_c16_sets [native 0] => battery::c16_sets;
     e2n_c18_declared_signers [native 0] => battery::c18_declared_signers;
     e2n_c07_add_output [native 0] => battery::c07_add_output;
+    e2n_c07_change_min_ada [native 0] => battery::c07_change_min_ada;
     e2n_c05_change_step [native 0] => battery::c05_change_step;
     e2n_c06_change_fee_widths [native 0] => battery::c06_change_fee_widths;
     e2n_c16_hash_eq [native 0] => battery::c16_hash_eq;
